@@ -101,7 +101,7 @@ def one(rec, t, ti, name, obj, mut, site):
     case = {"tree": ti, "class": name, "operator": op, "at": where, "value": mut.to_json()}
     rec.case((ti, name, repr(mut), op, where))
     try:
-        real = br.build(mut)
+        real = br.build(mut, array_form=(0, 1, 2, 0)[rec.evals % 4])
     except Exception as e:
         rec.count("discard:constructor-refuses")
         rec.seen("constructor-refusals", "%s:%s" % (op, type(e).__name__))
